@@ -5,6 +5,9 @@ import (
 	"bytes"
 	"context"
 	"fmt"
+	"google.golang.org/grpc"
+	"google.golang.org/grpc/credentials/insecure"
+	"net"
 	"net/http"
 	"os"
 	"runtime"
@@ -39,7 +42,7 @@ type SCase struct {
 	Ops []string `json:"ops"` // local | multi-ok | multi-bad | conn:B1.. | drop:B1.. | alter:B3
 }
 
-var opPool = []string{"local", "multi-ok", "multi-bad", "multi-bad", "multi-bad-s", "conn:B1", "conn:B2", "conn:B3", "drop:B1", "drop:B2", "drop:B3", "alter:B3"}
+var opPool = []string{"local", "multi-ok", "multi-bad", "multi-bad", "multi-bad-s", "conn-bad", "conn:B1", "conn:B2", "conn:B3", "drop:B1", "drop:B2", "drop:B3", "alter:B3"}
 
 var probePaths = []string{"/fx/multibads/m1", "/fx/multibads/m2/x", "/un.MultiBadS/M1", "/fx/svca", "/fx/svcb", "/fx/svcc", "/fx/svcd", "/fx/svce", "/fx/multiok/m1", "/fx/multiok/m2/x", "/fx/multiok/m3", "/fx/multibad/m1", "/fx/multibad/m2/x", "/un.MultiBad/M1", "/un.SvcA/Ping"}
 
@@ -54,7 +57,52 @@ func probeAll(mux http.Handler) []int {
 
 type sinfo struct{ failed, snaps int }
 
+var (
+	noReflOnce sync.Once
+	noReflCC   *grpc.ClientConn
+)
+
+// noRefl is a connection to a live gRPC server that has no reflection service:
+// RegisterConn on it fails after it has started its work.
+func noRefl() *grpc.ClientConn {
+	noReflOnce.Do(func() {
+		srv := grpc.NewServer()
+		ln, err := net.Listen("tcp", "127.0.0.1:0")
+		if err != nil {
+			panic(err)
+		}
+		go srv.Serve(ln)
+		noReflCC, err = grpc.NewClient(ln.Addr().String(), grpc.WithTransportCredentials(insecure.NewCredentials()))
+		if err != nil {
+			panic(err)
+		}
+	})
+	return noReflCC
+}
+
+var errBlocked = fmt.Errorf("operation did not return within 15 s")
+
+// apply runs the operation; one that does not return (a registration lock that was
+// never released, say) is reported as errBlocked instead of hanging the checker.
 func apply(mux *larking.Mux, op string) (err error, pnc any) {
+	type res struct {
+		err error
+		pnc any
+	}
+	ch := make(chan res, 1)
+	go func() {
+		e, p := applyNow(mux, op)
+		ch <- res{e, p}
+	}()
+	select {
+	case r := <-ch:
+		return r.err, r.pnc
+	case <-time.After(15 * time.Second):
+		return errBlocked, nil
+	}
+}
+
+func applyNow(mux *larking.Mux, op string) (err error, pnc any) {
 	defer func() { pnc = recover() }()
 	ctx, cancel := context.WithTimeout(context.Background(), 20*time.Second)
 	defer cancel()
@@ -70,6 +118,8 @@ func apply(mux *larking.Mux, op string) (err error, pnc any) {
 		return mux.VerifRegisterService(fixture.MultiDesc("MultiBadS", &cnt), nil), nil
 	case "conn":
 		return mux.RegisterConn(ctx, fixture.Backends[target].CC), nil
+	case "conn-bad":
+		return mux.RegisterConn(ctx, noRefl()), nil
 	case "drop":
 		mux.DropConn(ctx, fixture.Backends[target].CC)
 	case "alter":
@@ -105,6 +155,9 @@ func CheckSnapshots(c SCase) ([]evid.Violation, sinfo) {
 		if pnc != nil {
 			return fail(step, "panic", "panic", "panicked: %v", pnc)
 		}
+		if err == errBlocked {
+			return fail(step, "operation-blocked", "operation-blocked", "%v (an earlier failed operation left the mux unable to register or remove anything)", err)
+		}
 		for _, sn := range snaps {
 			if fp := larking.VerifFingerprint(sn.s); fp != sn.fp {
 				return fail(step, "published-state-mutated", "published-state-mutated:"+strings.SplitN(op, ":", 2)[0], "the snapshot published before step %d was mutated in place:\n--- was\n%s\n--- now\n%s", sn.step, sn.fp, fp)
@@ -121,7 +174,7 @@ func CheckSnapshots(c SCase) ([]evid.Violation, sinfo) {
 					return fail(step, "failed-op-observable", "failed-op-observable", "operation failed (%v) but GET %s changed from %d to %d", err, probePaths[i], probesBefore[i], probesAfter[i])
 				}
 			}
-		} else if op == "multi-bad" || op == "multi-bad-s" {
+		} else if op == "multi-bad" || op == "multi-bad-s" || op == "conn-bad" {
 			return fail(step, "harness", "multi-bad-accepted", "%s registration unexpectedly succeeded", op)
 		}
 	}
